@@ -343,6 +343,29 @@ def check_hardlinks(ctx, stats):
                 shown += 1
                 ctx.violation("hl-timeout:" + vlib.sha(l)[:12], "fstree_resolve_hard_links did not return within 10 ms CPU on: %s" % l,
                               {"unit": "hl", "line": l, "impl": "timeout", "model_shipped": c})
+    # the specification as a monitor on the *real* code's answers, for every graph (not only where model and code differ):
+    # `hlspec` is the executable classifier of Spec/HardLink.lean (`specClass_sound`); graphs with a preset link count are
+    # left to the model comparison (the classifier does not know the counts)
+    plain = [(l, a) for l, a in zip(lines, impl) if " c:" not in l and not a.startswith("CRASH") and a != "timeout"]
+    infra(len(plain) > 1000, "hard links: nothing to evaluate the specification on")
+    nchunk = jobs(ctx)
+    size = (len(plain) + nchunk - 1) // nchunk
+    with ThreadPoolExecutor(max_workers=nchunk) as ex:
+        parts = list(ex.map(lambda k: model_lines(ctx, ["hlspec " + l[3:] for l, _ in plain[k:k + size]], "hlspec"), range(0, len(plain), size)))
+    allspecs = [x for p in parts for x in p]
+    infra(len(allspecs) == len(plain), "hlspec: %d verdicts for %d graphs" % (len(allspecs), len(plain)))
+    spec_bad, spec_judged = [], 0
+    for (l, a), sp in zip(plain, allspecs):
+        if sp.startswith("spec"):
+            spec_judged += 1
+        bad = hl_spec_verdict(l, a, sp)
+        if bad:
+            spec_bad.append((l, a, sp, bad))
+    infra(spec_judged > 1000, "hlspec judged only %d graphs" % spec_judged)
+    for l, a, sp, bad in spec_bad[:5]:
+        ctx.violation("hl-spec:" + vlib.sha(l)[:12], "hard-link resolution violates the specification (%s): real code answers %r, spec %r on %s" % (
+            "; ".join(bad), a, sp, l), {"unit": "hl", "line": l, "impl": a, "spec": sp, "clauses": bad})
+    mism = [m for m in mism if m[0] not in {x[0] for x in spec_bad[:5]}]
     if mism:
         specs = model_lines(ctx, ["hlspec " + l[3:] for l, _, _ in mism[:200]], "hlspec")
         shown = 0
@@ -364,6 +387,7 @@ def check_hardlinks(ctx, stats):
     stats["hl"] = {"evaluations": len(lines), "exhaustive_graphs_le4_names": nexh, "random": len(rnd), "corpus": len(corpus),
                    "saturated_link_count": len(sat), "around_nesting_limit": len(deep), "nesting_limit": limit,
                    "model_result_histogram": hist, "impl_timeouts": len(spins), "mismatches": len(mism),
+                   "graphs_judged_by_the_specification": spec_judged, "specification_violations": len(spec_bad),
                    "samples": [{"line": lines[i], "impl": impl[i], "model": model[i]} for i in (0, nexh // 2, len(lines) - 1)]}
     return len(lines), sum(v for k, v in hist.items() if not k.startswith("ok")), len(spins) + len(mism)
 
@@ -480,6 +504,11 @@ def gen_parser_lines(ctx):
         rec = b"".join(recs)
         if rec:
             L.append("pax %s" % tok(rec))
+    # xattr keys: every short string over the escape alphabet behind both prefixes (xattr_key_decode / urldecode)
+    for kb in prod([0x25, 0x32, 0x35, 0x33, 0x44, 0x64, 0x61], 4 if q else 5, 1):
+        L.append("pax %s" % tok(pax_rec(b"SCHILY.xattr." + kb, b"v")))
+        if len(kb) <= 3:
+            L.append("pax %s" % tok(pax_rec(b"LIBARCHIVE.xattr." + kb, b"QUJD")))
     # GNU.sparse.* records in every order of three (incl. numbytes, map, numbytes: the use after free of 1.2.0)
     sp = [(b"GNU.sparse.numbytes", b"1"), (b"GNU.sparse.numbytes", b"2"), (b"GNU.sparse.map", b"0,1"), (b"GNU.sparse.map", b"0,1,2,3"),
           (b"GNU.sparse.offset", b"7"), (b"GNU.sparse.map", b"x"), (b"GNU.sparse.numbytes", b"")]
@@ -761,6 +790,32 @@ def check_parsers(ctx, stats):
         else:
             what = "parser unit: real code answers %r, model %r on %s" % (a, b, l[:300])
         ctx.violation("parse-corr:" + vlib.sha(l)[:12], what, {"unit": "parse", "line": l, "impl": a, "model": b}, found_input=False)
+    # monitors: the specification evaluated on the real code's behaviour, independent of the model's answers
+    #  (a) get_line: the byte-at-a-time scanner `specFile` (quadratic in the line length: small inputs only)
+    def gl_small(l):
+        toks = l.split()[3:]
+        return all(t.startswith("h") for t in toks) and sum(len(t) - 1 for t in toks) <= 32        # at most 16 literal bytes, no runs
+    small_gl = [(l, a) for l, a in zip(lines, impl) if l.startswith("gl ") and gl_small(l) and not a.startswith("CRASH")]
+    infra(len(small_gl) > 1000, "no small get_line inputs for the specification monitor")
+    sp = model_lines(ctx, ["glspec" + l[2:] for l, _ in small_gl], "glspec")
+    gl_bad = [(l, a, b) for (l, a), b in zip(small_gl, sp) if a != b]
+    for l, a, b in gl_bad[:5]:
+        ctx.violation("gl-spec:" + vlib.sha(l)[:12], "istream_get_line returns %r, the byte-at-a-time specification says %r on %s" % (a, b, l),
+                      {"unit": "parse", "line": l, "impl": a, "spec": b})
+    #  (b) read_header: no allocation beyond the implementation limits (`read_header_total`), observed through ASan's malloc hook
+    rh_lines = [l for l in lines if l.startswith("rh ")]
+    mx, rcrash = run_harness(ctx, exe, ["rhmax" + l[2:] for l in rh_lines], timeout=900)
+    infra(rcrash is not None or len(mx) == len(rh_lines), "rhmax: %d answers for %d streams" % (len(mx), len(rh_lines)))
+    lim = max(tar_limits().values())
+    big_alloc = []
+    for l, a in zip(rh_lines, mx):
+        infra(a.startswith("max "), "rhmax answered %r" % a[:100])
+        if int(a.split()[1]) > lim + 64:
+            big_alloc.append((l, int(a.split()[1])))
+    infra(rcrash is not None or any(int(a.split()[1]) > lim // 2 for a in mx), "rhmax: no stream made read_header allocate anything near the limits")
+    for l, nbytes in big_alloc[:3]:
+        ctx.violation("rh-alloc:" + vlib.sha(l)[:12], "read_header allocates %d bytes at once, the implementation limits allow %d (+ a list node): %s" % (
+            nbytes, lim + 1, l[:200]), {"unit": "parse", "line": l, "impl": "max %d" % nbytes})
     # every op must have been answered both ways (accepting and rejecting) by the model: a generator that only produces
     # rejected inputs compares nothing
     for op in PARSE_OPS:
@@ -771,9 +826,12 @@ def check_parsers(ctx, stats):
     stats["parse"] = {"evaluations": len(lines), "corpus": ncorpus, "per_op": per_op, "wall_s": round(time.time() - t0, 1),
                       "model_answer_histogram": dict(sorted(hist.items())),
                       "model_oob_or_spin_answers": bounds, "mismatches": len(mism),
+                      "get_line_inputs_judged_by_the_specification": len(small_gl), "get_line_specification_violations": len(gl_bad),
+                      "read_header_streams_with_allocation_monitor": len(rh_lines), "largest_allocation_seen": max((int(a.split()[1]) for a in mx), default=0),
+                      "allocation_limit_violations": len(big_alloc),
                       "samples": [{"line": lines[i][:200], "impl": impl[i][:200], "model": model[i][:200]} for i in (0, len(lines) // 2, len(lines) - 1)]}
     nontriv = sum(v for k, v in hist.items() if not k.endswith(":ok"))
-    return len(lines), nontriv, len(mism) + len(crashes)
+    return len(lines) + len(small_gl) + len(rh_lines), nontriv, len(mism) + len(crashes) + len(gl_bad) + len(big_alloc)
 
 
 # ---------------------------------------------------------------------------------------------------------
